@@ -27,7 +27,8 @@ def fieldOf (j : Json) : Field :=
     bytesEnc := getNat j "bytes"
     oneofValue := getOptStr j "oneof_value"
     flatten := getBool j "flatten"
-    flattenPrefix := getStr j "prefix" }
+    flattenPrefix := getStr j "prefix"
+    jsonOverride := getOptStr j "json_name" }
 
 def oneofOf (j : Json) : OneofDecl :=
   { name := getStr j "name", hasConfig := getBool j "has_config", discriminator := getStr j "disc", flatten := getBool j "flatten" }
